@@ -198,6 +198,11 @@ type Engine struct {
 	// which cond holds should be dropped (recorded as a "cutoff" outcome).
 	// Used to keep bounded explorations of parse loops focused.
 	Prune func(cond *BoolVal) bool
+	// RunOnce makes (*sync.Once).Do run its argument (once-ness and ordering
+	// are C11's business); RunInitFuncs follows the declared init functions
+	// of a package when its initial state is evaluated (EvalInits).
+	RunOnce      bool
+	RunInitFuncs bool
 	// PruneByFacts drops a branch whose condition is refuted, in integer linear
 	// arithmetic, by the conditions already on the path (n < 40 refutes n >= 128).
 	PruneByFacts bool
@@ -483,6 +488,11 @@ func (e *Engine) load(st *State, p *Ptr, t types.Type) (Val, string) {
 			if c, ok := p.SymIdx.ConstInt(); ok && c >= 0 && int(c) < len(a.Elems) {
 				return a.Elems[c], ""
 			}
+			// a table of constants that is an affine function of its index
+			// (t[i] = i/255) reads as that function of the index
+			if f := affineTable(a); f != nil {
+				return f(p.SymIdx), ""
+			}
 			return e.appOfType("index", t, &Opaque{Key: valKey(a)}, p.SymIdx), ""
 		}
 		if o, ok := v.(*Opaque); ok {
@@ -491,6 +501,37 @@ func (e *Engine) load(st *State, p *Ptr, t types.Type) (Val, string) {
 		return nil, "load: symbolic index into " + valKey(v)
 	}
 	return v, ""
+}
+
+// affineTable: all elements are constants with elems[i] = a·i + b (at least 3 elements).
+func affineTable(a *Agg) func(idx *Form) *Form {
+	if len(a.Elems) < 3 {
+		return nil
+	}
+	cs := make([]*big.Rat, len(a.Elems))
+	for i, el := range a.Elems {
+		f, ok := el.(*Form)
+		if !ok {
+			return nil
+		}
+		c, isC := f.Const()
+		if !isC {
+			return nil
+		}
+		cs[i] = c
+	}
+	b := cs[0]
+	step := new(big.Rat).Sub(cs[1], cs[0])
+	for i := 2; i < len(cs); i++ {
+		want := new(big.Rat).Add(b, new(big.Rat).Mul(step, big.NewRat(int64(i), 1)))
+		if want.Cmp(cs[i]) != 0 {
+			return nil
+		}
+	}
+	if step.Sign() == 0 {
+		return nil
+	}
+	return func(idx *Form) *Form { return idx.Mul(formRat(step)).Add(formRat(b)) }
 }
 
 // elemOf is element idx of an opaque indexable value.
